@@ -40,7 +40,7 @@ def alphabet(rng, plat):
         dict(op="FA", path=f0, offset=0, chunks=[(b"abc" * 100, True)]),
         dict(op="FA", path=f0, offset=200, chunks=[(rng.randbytes(150), False), (rng.randbytes(70), False)]),
         dict(op="FD", path=f0),
-        rng.choice([dict(op="FM", path="sqpack/ex2/x"), dict(op="FR", expansion=0)]),
+        rng.choice([dict(op="FM", path="sqpack/ex2/x"), dict(op="FM", path=rng.choice(["sqpack/ex2/", "top/", "a/b/c/"])), dict(op="FR", expansion=0)]),
     ]
 
 
@@ -239,7 +239,7 @@ def rand_ops(rng, plat):
         elif k < 0.82:
             ops.append(dict(op="FD", path=rng.choice(fpaths + ["nonexistent/file.bin"])))
         elif k < 0.86:
-            ops.append(dict(op="FM", path=rng.choice(["newdir/sub/x", "sqpack/ex3/y", "z"])))
+            ops.append(dict(op="FM", path=rng.choice(["newdir/sub/x", "sqpack/ex3/y", "z", "newdir2/", "sqpack/ex4/", "deep/er/still/"])))
         elif k < 0.88:
             ops.append(dict(op="FR", expansion=rng.choice([0, 1, 3])))
         elif k < 0.92:
